@@ -489,6 +489,22 @@ def main():
         "wall_s": round(wall, 2),
         "violations": len(violations),
     }
+    if tier == "thorough" and not violations and not undecided and os.environ.get("VERIF_NO_SELFTEST") != "1":
+        # thorough tier: sensitivity exploration -- every deliberate edit / seeded change recorded for this
+        # property is applied to a scratch copy of /repo and must be reported (or, for the harmless ones, not)
+        try:
+            p = subprocess.run([sys.executable, os.path.join(VERIF, "tools", "selftest.py"), "--json", prop],
+                               capture_output=True, text=True, timeout=7200)
+            st = json.loads(p.stdout.strip().split("\n")[-1]) if p.stdout.strip() else []
+        except Exception as e:  # noqa: BLE001
+            st = [{"id": "selftest", "outcome": "could not run: %r" % e, "as_expected": False}]
+        ev["coverage"]["thorough_mutation_selftest"] = {
+            "what": "deliberate property-breaking edits (selftest/mutants.json) and independently seeded changes (seeded/*) applied to scratch copies; each must fail a named obligation (harmless ones must not)",
+            "run": len(st), "as_expected": len([x for x in st if x.get("as_expected")]),
+            "not_as_expected": [x for x in st if not x.get("as_expected")],
+            "results": [{k: x.get(k) for k in ("id", "prop", "outcome", "obligation")} for x in st],
+        }
+    ev["wall_s"] = round(time.time() - t0, 2)
     if n_obl == 0:
         ev["coverage"]["obligations"] = 0
     evdir = os.environ.get("VERIF_EVIDENCE_DIR") or os.path.join(VERIF, "evidence")
